@@ -77,7 +77,7 @@ T = "Tinode.Props.C13."
 PROP = dict(
     id="C13",
     level_text="PARTIAL. The push preview of a message (128-rune truncation of arbitrary multi-byte content) is modelled with Go's rune conversion and proved total and exact, tied by a differential stream in package push/fcm. 'Never terminates the server' is decided by running every generated request - including requests to names never issued, deleted topics, unattached sessions, ill-formed mode strings, out-of-range numbers - through the real Session.dispatch/Hub/Topic code in the world stream: a panic is reported with its history (this found the hub panic of {del topic} on an ill-formed name, fix: 5cd265c). Kernel-checked Lean theorems carry the reply obligation of the transcribed handlers: a publish is always answered under every fault plan, {del topic} for an unknown name is answered, invalid notes are silent. The monitor checks on every history that each request other than a note got a reply and that unknown topics are answered with an error code.",
-    level_note='NOT covered: byte-level input (JSON parsing, the read loops), the {hi}/{login}/{acc} handlers (see C11), configuration variants other than 'no media handler'. Drafty previews: 900 (quick) / 4000 (thorough) generated documents per seed (a well-formed document with a few fields set to boundary values or wrong types) are run through payloadToData; the model's only claim there is that the process goes on. Known finding (root session, on-behalf-of {leave}) is recorded, proved as a witness.',
+    level_note='NOT covered: byte-level input (JSON parsing, the read loops), the {hi}/{login}/{acc} handlers (see C11), configuration variants other than a server without a media handler. Drafty previews: 900 (quick) / 4000 (thorough) generated documents per seed (a well-formed document with a few fields set to boundary values or wrong types) are run through payloadToData; the only claim of the model there is that the process goes on. Known finding (root session, on-behalf-of {leave}) is recorded, proved as a witness.',
     technique='differential world stream over the real dispatch code (panic detection) + Lean 4 proof of reply obligations + history monitor',
     modules=["TinodeVerif.Props.C13"],
     theorems=[T + n for n in ['saveMessage_frames', 'pub_always_answered', 'del_unknown_topic_answered', 'invalid_note_silent', 'leave_unanswered_witness',
